@@ -5,7 +5,7 @@ import glob, json, os, subprocess, sys, re
 HERE = os.path.dirname(os.path.dirname(os.path.abspath(__file__)))
 REL = {"C01": ["C01", "C04", "C09", "C02", "C07"], "C02": ["C02", "C04", "C17"], "C03": ["C03"], "C04": ["C04", "C05", "C02"], "C05": ["C05", "C04", "C18", "C02"], "C06": ["C06", "C04"],
        "C07": ["C07"], "C08": ["C08"], "C09": ["C09"], "C10": ["C10"], "C11": ["C11"], "C12": ["C12", "C10"], "C13": ["C13", "C12", "C14", "C04"],
-       "C14": ["C14", "C09", "C07", "C10"], "C15": ["C15", "C12"], "C16": ["C16"], "C17": ["C17", "C03", "C02"], "C18": ["C18", "C02"]}
+       "C14": ["C14", "C09", "C07", "C10", "C12"], "C15": ["C15", "C12", "C16"], "C16": ["C16"], "C17": ["C17", "C03", "C02"], "C18": ["C18", "C02"]}
 pat = sys.argv[1] if len(sys.argv) > 1 else "*"
 rows = []
 for d in sorted(glob.glob(os.path.join(HERE, "seeded", pat))):
